@@ -6,8 +6,8 @@
    an independent reference accessory).  Partial: strength of the primitives and
    their byte encodings are outside the model. *)
 From Coq Require Import List NArith Arith Bool Lia.
-From AHK Require Import Lib.Res Lib.ByteStr Model.Tlv Model.Sym Model.Verify Model.VerifyHist
-     Proofs.SymFacts Proofs.VerifyFacts Proofs.VerifyHistFacts.
+From AHK Require Import Lib.Res Lib.ByteStr Model.Tlv Model.Sym Model.Verify Model.VerifyHist Model.VerifyConn
+     Proofs.SymFacts Proofs.VerifyFacts Proofs.VerifyHistFacts Proofs.VerifyConnFacts.
 Import ListNotations.
 
 (* SOUNDNESS.  For every transport, pairing record, ephemeral key, resume state
@@ -260,6 +260,86 @@ Example c01_hist_nonvacuous :
     end) [TIP; TBLE; TCOAP] = true.
 Proof. vm_compute. reflexivity. Qed.
 
+(* ==== CONNECTION LIFE CYCLE: links, entry points, the state in flight (Model/VerifyConn.v) ====
+   c_step adds to the glue machine the entry point that DECIDES whether pair-verify runs
+   (BLE `if not self._encryption_key`, IP/CoAP `if self.is_connected: return`), the end of a link by
+   whichever path, and two ghost components: the number of the current link and the link on which
+   the installed keys were proved. *)
+
+(* For EVERY history of entry-point calls (any replies), link ends and resets, on every transport:
+   a session reported live was proved on the link that is current NOW (on BLE / IP the same holds
+   for any installed key at all), and the glue invariant of hist_rooted holds.  So no session is ever
+   reported open on a link whose peer has not itself completed a Done pair-verify. *)
+Theorem conn_live_current_link : forall tr pd h, c_inv tr pd (c_run tr pd h).
+Proof. exact c_run_inv_l. Qed.
+
+Theorem conn_snoc : forall tr pd h ev, c_run tr pd (h ++ [ev]) = c_step tr pd (c_run tr pd h) ev.
+Proof. exact c_run_snoc. Qed.
+
+(* the "proved on link n" mark is set only by a run of the entry point that really executed
+   pair-verify on link n and ended Done *)
+Theorem conn_mark_only_by_done : forall tr pd c ev n,
+    c_klink (c_step tr pd c ev) = Some n ->
+    c_klink c = Some n \/
+    (n = c_link c /\ exists eph m2 m4 sid k, ev = CConnect eph m2 m4 /\ g_needs_verify tr (c_g c) = true /\
+       pv_run tr pd eph (match tr with TBLE => gs_resume (c_g c) | _ => None end) m2 m4 = PDone sid k).
+Proof. exact c_klink_only_by_done_l. Qed.
+
+(* HOWEVER a link ends (disconnect callback, close(), close() whose disconnect raised, a dropped
+   attempt, CoAP request failure or reset), nothing is live afterwards, BLE / IP hold no key, and the
+   next use of the entry point runs pair-verify - it is never skipped on a new link *)
+Theorem conn_end_clears : forall tr pd c,
+    let c' := c_step tr pd c CEnd in
+    gs_live (c_g c') = false /\ (tr <> TCOAP -> gs_keys (c_g c') = None) /\ c_link c' = S (c_link c).
+Proof. exact c_end_clears. Qed.
+
+Theorem conn_verify_after_end : forall tr pd st eph m2 m4,
+    g_connect tr pd (g_drop tr st) eph m2 m4 = g_verify tr pd (g_drop tr st) eph m2 m4 /\
+    g_connect tr pd (g_reset tr st) eph m2 m4 = g_verify tr pd (g_reset tr st) eph m2 m4.
+Proof. exact g_connect_after_end_l. Qed.
+
+(* WHILE an attempt is in flight (M1 sent, M2 / M4 outstanding) no session is reported: on IP and CoAP
+   from every state; on BLE in every state in which the entry point starts an attempt.  The attempt
+   then ends Done, or leaves exactly the in-flight state. *)
+Theorem conn_inflight_not_live : forall tr pd st,
+    g_inv tr pd st -> g_needs_verify tr st = true -> gs_live (g_inflight tr st) = false.
+Proof. exact g_inflight_not_live_l. Qed.
+
+Theorem conn_inflight_not_live_ip_coap : forall tr st, tr <> TBLE -> gs_live (g_inflight tr st) = false.
+Proof. exact g_inflight_not_live_nonble. Qed.
+
+Theorem conn_done_or_inflight : forall tr pd st eph m2 m4,
+    (exists sid k, pv_run tr pd eph (match tr with TBLE => gs_resume st | _ => None end) m2 m4 = PDone sid k) \/
+    g_verify tr pd st eph m2 m4 = g_inflight tr st.
+Proof. exact g_verify_done_or_inflight. Qed.
+
+(* non-vacuity: connect (verify runs, live on link 0), connect again (skipped: same state), the link
+   ends, an impostor's link (the entry point DOES run pair-verify and it fails: not live, mark still
+   link 0 <> current link 1), the link ends, the genuine accessory again (live, mark = link 2) *)
+Definition ex_conn (tr : transport) : list cev :=
+  let t1 := pv_exchange tr ex_pd 22 None ex_acc None None in
+  let ok := [(T_state, [AByte 4])] in
+  let bad := m2_shape [AByte 2] (s_pub 21) (pv_key (s_dh 24 (s_pub 21))) N_pv02 [] (lit (pd_acc_id ex_pd))
+                      (s_sign 13 (s_pub 21 ++ lit (pd_acc_id ex_pd) ++ s_pub 24)) in
+  let m2_3 := tr_m2_spec (pv_exchange tr ex_pd 26 None ex_acc None None) in
+  [CConnect 22 (tr_m2_spec t1) ok; CConnect 23 [] []; CEnd; CConnect 24 bad ok; CEnd; CConnect 26 m2_3 ok].
+
+Example c01_conn_nonvacuous :
+  forallb (fun tr =>
+    match c_trace tr ex_pd c_init (ex_conn tr) with
+    | [s1; s2; s3; s4; s5; s6] =>
+        gs_live (c_g s1) && gs_live (c_g s2) && negb (gs_live (c_g s3)) && negb (gs_live (c_g s4)) &&
+        negb (gs_live (c_g s5)) && gs_live (c_g s6) &&
+        match c_klink s1, c_klink s2, c_klink s4, c_klink s6 with
+        | Some 0, Some 0, Some 0, Some 2 => true
+        | _, _, _, _ => false
+        end && (c_link s4 =? 1) && (c_link s6 =? 2) &&
+        g_needs_verify tr (c_g s3) && negb (g_needs_verify tr (c_g s1))
+    | _ => false
+    end) [TIP; TBLE; TCOAP] = true.
+Proof. vm_compute. reflexivity. Qed.
+
+
 Print Assumptions pv_sound.
 Print Assumptions pv_components_pinned.
 Print Assumptions pv_tampered_fails.
@@ -279,3 +359,11 @@ Print Assumptions hist_verify_done.
 Print Assumptions hist_verify_fail.
 Print Assumptions hist_drop_dead.
 Print Assumptions hist_replay_rejected.
+Print Assumptions conn_live_current_link.
+Print Assumptions conn_snoc.
+Print Assumptions conn_mark_only_by_done.
+Print Assumptions conn_end_clears.
+Print Assumptions conn_verify_after_end.
+Print Assumptions conn_inflight_not_live.
+Print Assumptions conn_inflight_not_live_ip_coap.
+Print Assumptions conn_done_or_inflight.
